@@ -160,6 +160,14 @@ def run_case(case):
     return {"id": case["id"], "ev": evs}
 
 
+def _extra(rep, rd, tier):
+    from vcommon import drift_tier
+
+    drift_tier(PROP, "LP-algorithm", lambda: __import__("lpalgo").conformance(rep, rd, PROP, {"is_empty", "refines"}, 160 if tier == "quick" else 3200, seed()))
+    # evaluate / contains_behavior as the code does them, on every (list, partial assignment) of a small universe (spec/Evaluate.tla)
+    drift_tier(PROP, "evaluation", lambda: __import__("evaldrv").conformance(rep, rd, PROP, tier))
+
+
 def main(tier, replay=None):
     return lpev.run(
         PROP, tier, gen_cases(tier), run_case,
@@ -168,6 +176,6 @@ def main(tier, replay=None):
         "contradiction, margins 1 .. 2^-10, contradictory cycles, infeasible systems with no more rows than variables -- truth from a "
         "box-free Farkas certificate or a feasible point checked by TLC; consistency of membership with refinement on recorded values",
         owner=lambda ev: PROP, replay=replay,
-        extra=lambda rep, rd: __import__("lpalgo").conformance(rep, rd, PROP, {"is_empty", "refines"}, 160 if tier == "quick" else 3200, seed()),
+        extra=lambda rep, rd: _extra(rep, rd, tier),
         nontrivial=lambda ev, kind, detail: kind == "ok",
     )
